@@ -164,22 +164,31 @@ def judge(h, parsed, rc, timed_out, out):
     return "pass", reasons, [], cov
 
 
-_TREE_HASH = None
+_HASHES = {}
+
+# files of a harness crate that other modules of that crate use (besides common.rs): a change there invalidates all
+SHARED = {"kani-pure": ["c11.rs"], "kani-slice": ["common.rs", "boxed.rs"], "kani-arena": ["common.rs"]}
 
 
-def tree_hash():
-    """Content hash of everything a harness verdict depends on: /repo (sources, manifests), the harness crates,
-    the shared stubs and the tool versions. A verdict is reused only for byte-identical inputs."""
-    global _TREE_HASH
-    if _TREE_HASH is not None:
-        return _TREE_HASH
+def _hash_files(files):
     import hashlib
 
     hsh = hashlib.sha256()
+    for f in sorted(files):
+        hsh.update(f.encode() + b"\0")
+        try:
+            hsh.update(open(f, "rb").read())
+        except OSError:
+            hsh.update(b"<missing>")
+        hsh.update(b"\0")
+    return hsh.hexdigest()
+
+
+def repo_hash():
+    """Content hash of /repo (sources and manifests) + shared stubs + tool versions."""
+    if "repo" in _HASHES:
+        return _HASHES["repo"]
     roots = ["/repo/src", "/repo/Cargo.toml", "/repo/Cargo.lock", "/repo/crates", os.path.join(VERIF, "lib", "kani_stubs.rs")]
-    for c in ("kani-pure", "kani-slice", "kani-arena"):
-        roots.append(os.path.join(VERIF, c, "src"))
-        roots.append(os.path.join(VERIF, c, "Cargo.toml"))
     files = []
     for r in roots:
         if os.path.isfile(r):
@@ -189,22 +198,30 @@ def tree_hash():
                 dn[:] = [x for x in dn if x not in ("target", ".git")]
                 for f in fn:
                     files.append(os.path.join(d, f))
-    for f in sorted(files):
-        hsh.update(f.encode() + b"\0")
-        try:
-            hsh.update(open(f, "rb").read())
-        except OSError:
-            pass
-        hsh.update(b"\0")
-    hsh.update(b"kani-0.68.0/cbmc-6.11.0")
-    _TREE_HASH = hsh.hexdigest()
-    return _TREE_HASH
+    _HASHES["repo"] = _hash_files(files) + "|kani-0.68.0|cbmc-6.11.0"
+    return _HASHES["repo"]
+
+
+def tree_hash(h=None):
+    """Everything the verdict of harness h depends on: /repo, the stubs, the tool versions, the harness crate's
+    manifest, the files shared inside that crate and the module file the harness lives in. A verdict is reused only
+    when all of these are byte-identical."""
+    if h is None:
+        return repo_hash()
+    crate = h["crate"]
+    mod = h["path"].split("::")[0] + ".rs"
+    key = crate + "/" + mod
+    if key not in _HASHES:
+        src = os.path.join(VERIF, crate, "src")
+        files = [os.path.join(VERIF, crate, "Cargo.toml"), os.path.join(src, mod)] + [os.path.join(src, f) for f in SHARED.get(crate, [])]
+        _HASHES[key] = _hash_files(files)
+    return repo_hash() + "|" + _HASHES[key]
 
 
 def cache_path(h):
     import hashlib
 
-    key = hashlib.sha256((tree_hash() + "|" + h["crate"] + "|" + h["path"] + "|" + json.dumps([h.get("kind"), h.get("expect_fail"), h.get("stubbing"), h.get("cbmc_args"), h.get("timeout_s"), h.get("mem_gb")])).encode()).hexdigest()
+    key = hashlib.sha256((tree_hash(h) + "|" + h["crate"] + "|" + h["path"] + "|" + json.dumps([h.get("kind"), h.get("expect_fail"), h.get("stubbing"), h.get("cbmc_args"), h.get("tags")])).encode()).hexdigest()
     return os.path.join(CACHE, "results", key + ".json")
 
 
